@@ -220,9 +220,14 @@ pub fn check_step(cfg: &SpecCfg, obs: &StepObs, focus: &Focus) -> (Vec<Finding>,
             // bytes that are not valid text or an over-long line end that connection
             let bad = std::str::from_utf8(b).is_err() || b.split(|c| *c == b'\n').any(|l| l.len() > crate::world::MAX_LINE);
             if !bad {
-                return (out, false);
+                // several complete commands in one segment: judged as their composition below
+                match std::str::from_utf8(b) {
+                    Ok(t) if t.ends_with('\n') && t.matches('\n').count() >= 2 => (*i, Some(String::new())),
+                    _ => return (out, false),
+                }
+            } else {
+                (*i, None)
             }
-            (*i, None)
         }
         _ => return (out, false),
     };
@@ -237,22 +242,41 @@ pub fn check_step(cfg: &SpecCfg, obs: &StepObs, focus: &Focus) -> (Vec<Finding>,
         }
     };
     let actor_nick = info.nick.clone();
+    let raw_chain: Option<Vec<(usize, String)>> = match &obs.act {
+        Act::Raw(i, b) if line.is_some() => std::str::from_utf8(b).ok().map(|t| t.split('\n').map(|l| l.trim_end_matches('\r')).filter(|l| !l.trim().is_empty()).map(|l| (*i, l.to_string())).collect()),
+        _ => None,
+    };
     let exp = match (&obs.act, &line) {
-        (Act::SendHeldFirst(_, l), _) => {
+        (Act::SendHeldFirst(_, _), _) | (Act::Raw(_, _), Some(_)) => {
             // the other connections' lines in flight are read before the actor's
             // command takes effect on them (a KILL only posts a notice): expected
-            // result = those lines one after another, then the actor's line
+            // result = those lines one after another, then the actor's line.
+            // Several commands in one segment are the same kind of composition: each
+            // takes effect on the state the previous one left (a KILL only posts a notice).
             let mut m = pre_m.clone();
             let mut acc: Option<Exp> = None;
+            let mut pending_erase: Vec<String> = vec![];
             let mut chain: Vec<(usize, String)> = vec![];
-            for (j, ls) in obs.pre_held.iter().enumerate() {
-                if j != actor_slot {
-                    for hl in ls {
-                        chain.push((j, hl.clone()));
+            if let Some(rc) = &raw_chain {
+                // the actor's identity, privileges and registration state are read from the
+                // state before the segment: segments that change them are not judged
+                if rc.iter().any(|(_, l)| {
+                    let v = l.trim_start().split(' ').next().unwrap_or("").to_ascii_uppercase();
+                    matches!(v.as_str(), "NICK" | "OPER" | "QUIT" | "USER" | "PASS" | "CAP" | "MODE" | "AUTHENTICATE")
+                }) {
+                    return (out, false);
+                }
+                chain = rc.clone();
+            } else if let Act::SendHeldFirst(_, l) = &obs.act {
+                for (j, ls) in obs.pre_held.iter().enumerate() {
+                    if j != actor_slot {
+                        for hl in ls {
+                            chain.push((j, hl.clone()));
+                        }
                     }
                 }
+                chain.push((actor_slot, l.clone()));
             }
-            chain.push((actor_slot, l.clone()));
             for (j, hl) in chain {
                 let inf = match obs.pre_infos[j].as_ref() {
                     Some(i) => i.clone(),
@@ -263,7 +287,21 @@ pub fn check_step(cfg: &SpecCfg, obs: &StepObs, focus: &Focus) -> (Vec<Finding>,
                     Some(e) => e,
                     None => return (out, false),
                 };
-                m = e.next.clone();
+                // a KILL only posts a notice: until the victim's own connection has handled it
+                // the victim is still there (marked), and later commands of the same segment see it
+                let is_kill = hl.trim_start().split(' ').next().map_or(false, |v| v.eq_ignore_ascii_case("KILL"));
+                if is_kill && !e.closed.is_empty() && raw_chain.is_some() {
+                    let mut mid = m.clone();
+                    for v in &e.closed {
+                        if let Some(u) = mid.users.get_mut(v) {
+                            u.killed = true;
+                        }
+                        pending_erase.push(v.clone());
+                    }
+                    m = mid;
+                } else {
+                    m = e.next.clone();
+                }
                 acc = Some(match acc {
                     None => {
                         let mut e0 = e;
@@ -297,7 +335,17 @@ pub fn check_step(cfg: &SpecCfg, obs: &StepObs, focus: &Focus) -> (Vec<Finding>,
                 });
             }
             match acc {
-                Some(e) => e,
+                Some(mut e) => {
+                    if raw_chain.is_some() {
+                        // the state after everything settled: the composition's last state with the
+                        // killed users gone
+                        e.next = m.clone();
+                        for v in &pending_erase {
+                            e.next.erase_user(v);
+                        }
+                    }
+                    e
+                }
                 None => return (out, false),
             }
         }
